@@ -194,6 +194,28 @@ def run(ctx):
     if "_login_authentication" in R.methods:
         f = R.methods["_login_authentication"]
         ss = tpl.get("_login_authentication", [])
+        stepwise = None
+        if len(ss) == 3:
+            # the exchange written step by step: AUTHENTICATE "LOGIN", then one quoted base64 line per challenge
+            ordered = sorted(ss, key=lambda x: x[0].lineno)
+            first, conts = ordered[0], ordered[1:]
+            from .c08 import is_quoted_b64
+            got = []
+            for c_, v_ in conts:
+                na = bound_arg(c_, R.sender, R.sender.params[1])
+                if isinstance(na, ast.Name):
+                    ds = sorted((d for d in walk_no_nested(f.node) if isinstance(d, ast.Assign) and len(d.targets) == 1
+                                 and isinstance(d.targets[0], ast.Name) and d.targets[0].id == na.id and d.lineno < c_.lineno),
+                                key=lambda d: d.lineno)
+                    na = ds[-1].value if ds else na
+                arg = None
+                if na is not None and is_quoted_b64(na):
+                    for x in ast.walk(na):
+                        if isinstance(x, ast.Call) and call_name(x) == "b64encode" and x.args and isinstance(x.args[0], ast.Name):
+                            arg = x.args[0].id
+                got.append(arg)
+            stepwise = (first, got)
+            ss = [first]
         if len(ss) != 1:
             raise AnalysisError("U4", "LOGIN: expected one sender call")
         c = ss[0][0]
@@ -205,7 +227,15 @@ def run(ctx):
             ds = [d.value for d in walk_no_nested(f.node) if isinstance(d, ast.Assign) and any(
                 isinstance(t, ast.Name) and t.id == ex.id for t in d.targets)]
             ex = ds[-1] if ds else None
-        if not isinstance(ex, ast.List) or len(ex.elts) != 2:
+        if stepwise is not None:
+            want_ = [f.params[1], f.params[2]]
+            if stepwise[1] == want_:
+                ctx.holds("U4", "%s: the two responses are the quoted base64 of <login>, then of <password> (one per challenge)" % f.qualname)
+            else:
+                ctx.violation("U4", f, "payload:responses", "LOGIN answers the challenges with the quoted base64 of %s; the mechanism's format is "
+                              "<login> then <password>" % (stepwise[1],), node=c,
+                              witness="the server decodes other credentials than the caller gave")
+        elif not isinstance(ex, ast.List) or len(ex.elts) != 2:
             ctx.violation("U4", f, "payload:extra lines", "LOGIN does not send exactly two continuation lines", node=c)
         else:
             check("_login_authentication", template(ctx, f, ex.elts[0]), [("const", b'"'), ("b64", [LOGIN]), ("const", b'"')], "first line", c)
@@ -439,7 +469,7 @@ def py3_issues(ctx, f):
         if isinstance(n, ast.Call):
             # bytes-producing call with a str argument / method on bytes with str constant
             if isinstance(n.func, ast.Attribute) and isinstance(n.func.value, ast.Call) and call_name(n.func.value) in (
-                    "b64decode", "b64encode", "hexlify", "digest") and any(
+                    "b64decode", "b64encode", "hexlify", "digest") and n.func.attr not in ("decode",) and any(
                     isinstance(a, ast.Constant) and isinstance(a.value, str) for a in n.args):
                 issues.append(("bytes-method-str-arg:%s" % n.func.attr, "bytes.%s() is called with a str argument: %s" % (n.func.attr, norm(n)[:60]), n))
             if call_name(n) in ("md5", "sha1", "b64encode", "hexlify") and n.args and is_str_expr(n.args[0], f):
